@@ -51,7 +51,7 @@ class C19(Prop):
     assumptions = ["class-to-category table and port numbers as written in the statement"]
     anchors = ["aioswitcher.device:SwitcherWaterHeater.__post_init__", "aioswitcher.device:SwitcherShutter.__post_init__",
                "aioswitcher.device:SwitcherThermostat.__post_init__", "aioswitcher.device:SwitcherPowerPlug.__post_init__"]
-    min_evaluations = {"quick": 300, "thorough": 300}
+    min_evaluations = {"quick": 400, "thorough": 400}
     exhaustive = {"quick": True, "thorough": True}
     nshards = {"quick": 2, "thorough": 2}
 
@@ -187,12 +187,14 @@ class C19(Prop):
         if kind == "constructors":
             for cname, cat in CLASS_CATEGORY.items():
                 cls = getattr(dv, cname)
-                for t in types:
+                for t, st in [(t, st) for t in types for st in dv.DeviceState]:
                     acc.ev()
                     acc.distinct()
                     should = t.category.name == cat
                     try:
-                        obj = cls(**self._args_for(cls, t))
+                        kw = self._args_for(cls, t)
+                        kw["device_state"] = st
+                        obj = cls(**kw)
                         accepted = True
                     except ValueError:
                         accepted = False
